@@ -220,7 +220,8 @@ ProcessChecks3(e, m, p, r, dc, R, n, pecok, acc, xdevs, panicked) ==
                                    /\ n <= e.rbuf_len /\ Len(R) = n /\ e.rtail_diff = << >>
                       /\ n < 0 => Untouched(e),
                TRUE, xdevs),
-      IF ~panicked /\ C12Domain(p, m, e, acc)
+      (* inside the domains of C12, C14 and C15 the request must be answered: a panic is no answer *)
+      IF C12Domain(p, m, e, acc)
       THEN Chk("C12", r.kind = "ok" /\ C12Frame(p, m, R, n, Iid(p)), TRUE,
                IF Iid(p) # 0 /\ r.kind = "ok" /\ C12Frame(p, m, R, n, 0) THEN {"IID_ZERO"} ELSE {})
       ELSE Skip("C12"),
@@ -236,10 +237,10 @@ ProcessChecks3(e, m, p, r, dc, R, n, pecok, acc, xdevs, panicked) ==
           /\ (acc /\ ~panicked /\ Cmd(p) = 1 /\ p[12] = 3) => (r.kind = "ok" /\ n >= 13 /\ Len(R) = n /\ R[12] = CC_INVALID_DATA)
           /\ (acc /\ ~panicked /\ Cmd(p) = 2 /\ Len(p) <= 255) => (r.kind = "ok" /\ n >= 14 /\ Len(R) = n /\ R[12] = 0 /\ R[13] = e.pre.eid_resp),
           Len(p) >= 11 /\ p[11] \in {1, 2}, {}),
-      IF ~panicked /\ acc /\ Cmd(p) = 6 /\ p[12] < Len(m.vids) /\ Len(p) <= 255
+      IF acc /\ Cmd(p) = 6 /\ p[12] < Len(m.vids) /\ Len(p) <= 255
       THEN Chk("C14", r.kind = "ok" /\ n >= 13 /\ Len(R) = n /\ SubSeq(R, 12, n - 1) = AnswerBody(p, m, 0), TRUE, {})
       ELSE Skip("C14"),
-      IF ~panicked /\ acc /\ Cmd(p) \in 3..5 /\ Len(p) <= 255
+      IF acc /\ Cmd(p) \in 3..5 /\ Len(p) <= 255
       THEN Chk("C15", r.kind = "ok" /\ n >= 13 /\ Len(R) = n /\ SubSeq(R, 12, n - 1) = AnswerBody(p, m, 0), TRUE, {})
       ELSE Skip("C15"),
       IF IsPair(p) /\ ~panicked THEN Chk("C01", PairHolds(p, r), TRUE, xdevs \cup DecDevs(p, r, pecok)) ELSE Skip("C01"),
